@@ -109,9 +109,7 @@ def exc_kind(e: BaseException) -> str:
         if isinstance(e, cls):
             return k
     if isinstance(e, ValueError):
-        if "Too many bytes" in str(e):
-            return "ETooLong"
-        return "EValue"
+        return "EValue"     # never classified by message text; the model's ETooLong compares equal to EValue (Prelude.errkind_eqb)
     return "EOther"
 
 
